@@ -2,6 +2,7 @@ package eng
 
 import (
 	"bufio"
+	"context"
 	"fmt"
 	"io"
 	"os"
@@ -64,9 +65,13 @@ type c13Scn struct {
 	Cmds map[string]string `json:"cmds,omitempty"`
 	// Sched: run under the seeded scheduler (layer B); Tape are its choices
 	// Warm: the Interpreter is reused: the same program ran once before in a world of its own
-	Warm  bool  `json:"warm,omitempty"`
-	Sched bool  `json:"sched,omitempty"`
-	Tape  []int `json:"tape,omitempty"`
+	Warm bool `json:"warm,omitempty"`
+	// WarmCtx (programs with commands): the Interpreter is reused after an ExecuteContext call of
+	// the same program with NoExec set (it fails at its first command), whose context is closed
+	// after the call returned; the measured run uses Execute
+	WarmCtx bool  `json:"warm_ctx,omitempty"`
+	Sched   bool  `json:"sched,omitempty"`
+	Tape    []int `json:"tape,omitempty"`
 }
 
 type c13Entry struct {
@@ -330,6 +335,7 @@ func (c13Engine) Gen(r *core.Rand, tier string, i int) any {
 	}
 	sc.Output = core.Pick(r, []string{"bare", "bufio", "bufio-real", "flush"})
 	sc.Warm = kids == "none" && r.Chance(1, 6)
+	sc.WarmCtx = kids != "none" && r.Chance(1, 5)
 	if kids == "talkers" {
 		// A child that writes to the shared standard output while the program does (finding
 		// F-C13-1) corrupts an unsynchronised buffered writer: with a real bufio.Writer the
@@ -758,25 +764,26 @@ func (o *outWrap) Flush() error {
 }
 
 type c13Result struct {
-	Trace           []c13Entry
-	Res             execResult
-	Stdout          string
-	Stderr          string
-	Files           map[string]string
-	Got             map[string]string // child instance name -> bytes it read
-	Exited          map[string]bool
-	Started         []string
-	Alive           []string
-	SinkFails       int
-	WriteErrs       int // errors returned to the interpreter by Output.Write
-	FlushErrs       int // errors returned to the interpreter by Output.Flush
-	Overlaps        int
-	ChildWriteFails int
-	FailedAtTrace   int // bufio-real: number of started operations when the sink first failed (-1: never)
-	SchedOverlaps   []string
-	Async           bool
-	Deadlock        string
-	Sched           int
+	Trace              []c13Entry
+	Res                execResult
+	Stdout             string
+	Stderr             string
+	Files              map[string]string
+	Got                map[string]string // child instance name -> bytes it read
+	Exited             map[string]bool
+	Started            []string
+	Alive              []string
+	SinkFails          int
+	WriteErrs          int // errors returned to the interpreter by Output.Write
+	FlushErrs          int // errors returned to the interpreter by Output.Flush
+	Overlaps           int
+	ChildWriteFails    int
+	FailedAtTrace      int // bufio-real: number of started operations when the sink first failed (-1: never)
+	SchedOverlaps      []string
+	SchedCloseOverlaps []string
+	Async              bool
+	Deadlock           string
+	Sched              int
 }
 
 func c13Exec(sc *c13Scn, src string, ops map[int]*c13Op, failAt int, log *core.Log) *c13Result {
@@ -899,7 +906,7 @@ func c13Exec(sc *c13Scn, src string, ops map[int]*c13Op, failAt int, log *core.L
 		cfg.NewlineOutput = interp.CRLFNewlineMode
 	}
 	run := func() execResult { return execProgram(prog, cfg) }
-	if sc.Warm && !sc.Sched {
+	if (sc.Warm || sc.WarmCtx) && !sc.Sched {
 		it, ierr := interp.New(prog)
 		if ierr != nil {
 			core.Fatal("C13: New: %v", ierr)
@@ -915,7 +922,15 @@ func c13Exec(sc *c13Scn, src string, ops map[int]*c13Op, failAt int, log *core.L
 		warm.Output, warm.Error, warm.OpenFile = core.NewSimSink("warm", nil), core.NewSimSink("warmerr", nil), wfs.Open
 		warm.Stdin = nullFile()
 		c13cur = &c13State{ops: ops, crlf: sc.CRLF}
-		wr := guarded(func() (int, error) { return it.Execute(&warm) })
+		var wr execResult
+		if sc.WarmCtx {
+			warm.NoExec = true
+			wctx := core.NewSimContext()
+			wr = guarded(func() (int, error) { return it.ExecuteContext(wctx, &warm) })
+			wctx.Cancel(context.Canceled) // the usual "defer cancel()" of the caller
+		} else {
+			wr = guarded(func() (int, error) { return it.Execute(&warm) })
+		}
 		wfs.Remove()
 		c13cur = st
 		if wr.Panic != "" {
@@ -1334,6 +1349,13 @@ func c13Check(sc *c13Scn, src string, ops map[int]*c13Op, failAt int, res *c13Re
 	}
 	// rule 4 (schedule-dependent, evaluated last so that it never hides another oracle): no
 	// delivery of child output overlaps a Write of the program on the same Config.Output
+	// rule 4b: a stream to a command is closed by flushing, closing its input and waiting for it,
+	// one stream after the other: what two commands write after the end of their input can never
+	// be inside Write at the same time (this overlap cannot happen on a tree where close() and
+	// the end of the run wait for each command in turn, so it is not finding F-C13-1)
+	if len(res.SchedCloseOverlaps) > 0 {
+		return fail("concurrent-close", "two commands started by print | wrote to standard output at once after the end of their input: "+res.SchedCloseOverlaps[0])
+	}
 	for _, o := range res.SchedOverlaps {
 		out.Probe("overlap:program_write_vs_child_delivery", 1)
 		if strings.HasPrefix(o, "system:") {
@@ -1517,6 +1539,9 @@ func (c13Engine) Shrink(scAny any) []any {
 	}
 	if sc.Warm {
 		add(func(c *c13Scn) { c.Warm = false })
+	}
+	if sc.WarmCtx {
+		add(func(c *c13Scn) { c.WarmCtx = false })
 	}
 	if len(sc.Pre) > 0 {
 		add(func(c *c13Scn) { c.Pre = nil })
